@@ -81,11 +81,15 @@ NoBodyMut == [kind |-> "none"]
 BodyMutOf(x) == IF "bmut" \in DOMAIN x THEN x.bmut ELSE NoBodyMut
 MutBody(b, m) == IF m.kind = "sub" THEN [b EXCEPT ![m.at] = m.val]
                  ELSE IF m.kind \in {"cut", "cutkeep"} THEN SubSeq(b, 1, m.at) ELSE b
+\* ... and of the STORED (compressed) bytes, checksum recomputed: "ssub" one byte replaced, "scut" truncated; the
+\* header keeps the uncompressed size of the intact body, so the decompressor meets a damaged stream behind a good CRC
+MutStored(sb, m) == IF m.kind = "ssub" /\ m.at <= Len(sb) THEN [sb EXCEPT ![m.at] = m.val]
+                    ELSE IF m.kind = "scut" THEN SubSeq(sb, 1, IF m.at < Len(sb) THEN m.at ELSE Len(sb)) ELSE sb
 DataPage(ch, pg, extras, sty) ==
     LET body0 == PageBody(ch, pg)
         bm == BodyMutOf(pg)
         body == MutBody(body0, bm)
-        stored == CompressW(ch.codec, body)
+        stored == MutStored(CompressW(ch.codec, body), bm)
         dh == Struct(<<F(1, I(pg.n)), F(2, I(pg.encTag)), F(3, I(3)), F(4, I(3))>>
                      \o (IF pg.stats.has THEN <<F(5, StatsTree(pg.stats))>> ELSE <<>>)
                      \o (IF extras THEN ExtraFields(40) ELSE <<>>))
@@ -112,7 +116,7 @@ DictPage(ch, sty) ==
     LET body0 == PlainEncode(ch.type, ch.dict)
         bm == IF "dbmut" \in DOMAIN ch THEN ch.dbmut ELSE NoBodyMut
         body == MutBody(body0, bm)
-        stored == CompressW(ch.codec, body)
+        stored == MutStored(CompressW(ch.codec, body), bm)
         ph == Struct(<<F(1, I(2)), F(2, I(IF bm.kind = "cutkeep" THEN Len(body0) ELSE Len(body))), F(3, I(Len(stored))),
                        F(7, Struct(<<F(1, I(Len(ch.dict))), F(2, I(ch.dictEnc))>>))>>)
         hb == TSer(IF ch.dhmut.kind = "none" THEN ph ELSE Apply(ph, ch.dhmut), sty)     \* hostile-file hook (C04)
